@@ -120,6 +120,37 @@ pub fn run_check(id: &str, tier: Tier) -> i32 {
                 // requests issued afterwards
                 parts.push(run_engine(&crate::eng_queue::QueueEngine, &ctx, scale(tier, 30_000, 300_000)));
             }
+            if id == "C06" {
+                // lost wake-ups against a scripted peer (the program completes only when every task is polled again)
+                let n = scale(tier, 6_000, 60_000);
+                if parts.iter().all(|p| p.failure.is_none()) {
+                    parts.push(run_engine(&CapEngine, &ctx, n));
+                }
+                if parts.iter().all(|p| p.failure.is_none()) {
+                    parts.push(run_engine(&FlowEngine, &ctx, n));
+                }
+                if parts.iter().all(|p| p.failure.is_none()) {
+                    parts.push(run_engine(&AcksEngine, &ctx, n));
+                }
+                if parts.iter().all(|p| p.failure.is_none()) {
+                    parts.push(run_engine(&ShutdownEngine { server: true }, &ctx, n));
+                }
+                if parts.iter().all(|p| p.failure.is_none()) {
+                    parts.push(run_engine(&ShutdownEngine { server: false }, &ctx, n));
+                }
+                if parts.iter().all(|p| p.failure.is_none()) {
+                    parts.push(run_engine(&CatalogueServerEngine, &ctx, n));
+                }
+                if parts.iter().all(|p| p.failure.is_none()) {
+                    parts.push(run_engine(&crate::eng_raw::CatalogueClientEngine, &ctx, n));
+                }
+                if parts.iter().all(|p| p.failure.is_none()) {
+                    parts.push(run_engine(&HttpEngine { server: true }, &ctx, n));
+                }
+                if parts.iter().all(|p| p.failure.is_none()) {
+                    parts.push(run_engine(&HttpEngine { server: false }, &ctx, n));
+                }
+            }
             if parts.iter().all(|p| p.failure.is_none()) && id == "C06" {
                 // requests queued behind the peer's stream limit, the slots released in every way a slot can be released
                 parts.push(run_engine(&runner::Reattributed { inner: crate::eng_queue::QueueEngine, from: "C05", to: "C06", label: "queued", only: "queued-request" }, &ctx, scale(tier, 30_000, 300_000)));
